@@ -206,6 +206,11 @@ CMD_KEYS = ["Socket-Type", "Identity", "K", "Resource"]
 
 
 def gen_cmd(R):
+    if R.bool(1, 4):
+        # command body of exactly 254 / 255 / 256 bytes: the boundary between the short and the long command header
+        name, key = R.choice(CMD_NAMES), R.choice(CMD_KEYS)
+        vlen = R.choice([254, 255, 255, 256]) - (1 + len(name)) - (1 + len(key) + 4)
+        return {"op": "cmd", "name": name, "params": [[key, "v" * vlen]]}
     params = []
     for _ in range(R.weighted([(2, 0), (3, 1), (3, 2), (1, 4)])):
         vlen = R.weighted([(3, 0), (4, R.int(1, 12)), (1, 200), (1, 255), (1, 256), (1, 700)])
